@@ -130,6 +130,54 @@ def decode_stream(buf):
     return out
 
 
+# ----------------------------------------------------------------------------- the oracle's own flow table (OpenFlow 1.0 §4.6, from the text)
+
+class SpecTable:
+    """What the standard says the table holds after a history of FLOW_MODs, for the match family the harness uses
+    (`None` = everything wildcarded, k = in_port k only).  Written from the specification, not from the model: ADD replaces
+    the identical entry (same match and priority); CHECK_OVERLAP refuses when a single packet could match the new entry and an
+    entry of equal priority; MODIFY[_STRICT] replaces the actions of the matching entries and acts like ADD when there is
+    none; DELETE[_STRICT] removes the matching entries that have an output action to out_port (OFPP_NONE = no restriction);
+    non-strict matching = the request's match covers the entry's match; a statistics request selects the same way."""
+    def __init__(self, capacity):
+        self.flows, self.capacity = [], capacity
+    @staticmethod
+    def covers(req, ent): return req is None or req == ent
+    @staticmethod
+    def overlaps(a, b): return a is None or b is None or a == b
+    def select(self, mk, prio, strict, out_port):
+        return [f for f in self.flows
+                if ((f["mkey"] == mk and f["prio"] == prio) if strict else self.covers(mk, f["mkey"]))
+                and (out_port == OFPP_NONE or out_port in f["outs"])]
+    def stats_select(self, mk, table_id, out_port):
+        if table_id not in (0, 0xff): return []
+        return self.select(mk, 0, False, out_port)
+    def flow_mod(self, m):
+        """apply a flow_mod with a valid command; returns (acceptable FLOW_MOD_FAILED codes or None = must succeed,
+        the removed entries whose removal must be notified)"""
+        cmd, mk, prio, flags = m["cmd"], m["mkey"], m["prio"], m["flags"]
+        outs = [a[1] for a in m["acts"] if a[0] == 0]
+        if cmd in (3, 4):
+            gone = self.select(mk, prio, cmd == 4, m["out_port"])
+            self.flows = [f for f in self.flows if not any(f is g for g in gone)]
+            return None, [f for f in gone if f["flags"] & 1 and not f["flags"] & 4]
+        if cmd in (1, 2):
+            hit = self.select(mk, prio, cmd == 2, OFPP_NONE)
+            if hit:
+                for f in hit: f["outs"] = list(outs)
+                return None, []
+        # ADD, or MODIFY without a matching entry
+        if flags & 4:                                                   # emergency entries: this switch has no emergency table
+            return ({(3, 3)} if (m["idle"] or m["hard"]) else {(3, 0), (3, 2), (3, 5)}), []
+        over = bool(flags & 2) and any(f["prio"] == prio and self.overlaps(mk, f["mkey"]) for f in self.flows)
+        rest = [f for f in self.flows if not (f["mkey"] == mk and f["prio"] == prio)] if cmd == 0 else self.flows
+        full = len(rest) >= self.capacity
+        if over or full:
+            return ({(3, 1)} if over else set()) | ({(3, 0)} if full else set()), []
+        self.flows = rest + [{"mkey": mk, "prio": prio, "cookie": m["cookie"], "flags": flags, "outs": list(outs)}]
+        return None, []
+
+
 # ----------------------------------------------------------------------------- the check
 
 class C13(Check):
@@ -140,7 +188,7 @@ class C13(Check):
     theorems = ["Pox.C13.dispatch_agrees", "Pox.C13.classes_agree", "Pox.C13.summary_agrees", "Pox.C13.consts_spec",
                 "Pox.C13.one_reply", "Pox.C13.stats_spec", "Pox.C13.silent_kinds", "Pox.C13.handled", "Pox.C13.never_fails", "Pox.C13.order", "Pox.C13.stream_concat",
                 "Pox.C13.barrier_after", "Pox.C13.errors_spec", "Pox.C13.replies_carry_xid", "Pox.C13.set_config_visible",
-                "Pox.C13.buffer_unknown_defect", "Pox.C13.unhandled_type_fails"]
+                "Pox.C13.unhandled_type_fails"]
     anchors = [("pox/datapaths/switch.py", 135, 175), ("pox/datapaths/switch.py", 234, 246), ("pox/datapaths/switch.py", 266, 420),
                ("pox/datapaths/switch.py", 452, 472), ("pox/datapaths/switch.py", 962, 1035)]
     coverage_cases = 200
@@ -158,7 +206,8 @@ class C13(Check):
     level_note = ("Proved about the model only; the model is tied to the code by (a) the `decide` obligations over regenerated data and (b) the correspondence run. "
                   "Abstractions: matches are {all-wildcard, in_port=k}; actions are (type, output port); enqueue and output:TABLE are outside (C12) and excluded by the InScope "
                   "hypothesis; malformed bodies are C10's; reply payload bytes beyond the compared key fields are C01's. The model follows the REPAIRED code "
-                  "(fixes D9, D10, D27, C13-1); unknown buffer ids are answered by silence in code and model: theorem buffer_unknown_defect + proposed finding C13-2.")
+                  "(fixes D9, D10, D27, C13-1 committed; C13-2 = fixes/C13-2_buffer_unknown_error.diff: unknown / used buffer ids are answered with BAD_REQUEST/BUFFER_UNKNOWN / BUFFER_EMPTY; "
+                  "while finding C13-2 is open the sequences that name such a buffer are oracle-only).")
     trusted_base = ["model Model/SwitchReq.lean hand-written from pox/datapaths/switch.py (+ flow_table.py for the table summary); tied by dispatch/summary `decide` obligations and this correspondence run",
                     "harness/translate/dispatch_tables.py (decides which table/summary stands for the constructor and handlers)",
                     "harness/swnet.py byte-level node; the struct-based reply decoder in harness/c13.py"]
@@ -269,6 +318,8 @@ class C13(Check):
               {"ports": [], "deleted": [], "max_buffers": 0, "max_entries": 0, "miss": 5},
               {"ports": [1, 65279], "deleted": [1], "max_buffers": 3, "max_entries": 3, "miss": 128}]
 
+    FOCUS_PORTS = [1, 2, OFPP_CONTROLLER, OFPP_FLOOD, OFPP_ALL, OFPP_IN_PORT, OFPP_LOCAL]
+
     def _port_choice(self, rng, st):
         live = [p for p in st["ports"] if p not in st["deleted"]]
         pool = live * 3 + st["deleted"] + [0, 99, 5, OFPP_MAX, OFPP_IN_PORT, OFPP_FLOOD, OFPP_ALL, OFPP_CONTROLLER, OFPP_LOCAL, OFPP_NONE, rng.randint(0, U16)]
@@ -326,13 +377,22 @@ class C13(Check):
             m.update(cmd=rng.choice([0, 0, 0, 1, 2, 3, 4, 5, 9, ofgen.rint(rng, U16)]), mkey=self._mk(rng, st), prio=rng.choice([0, 1, 1, 0x8000, 0x8000, U16, rng.randint(0, 5)]),
                      cookie=rng.randint(0, 1 << 40), flags=rng.choice([0, 0, 0, 1, 1, 2, 3, 4, 5, 7, rng.randint(0, 7)]), idle=rng.choice([0, 0, 0, 5]),
                      hard=rng.choice([0, 0, 0, 9]), out_port=rng.choice([OFPP_NONE, OFPP_NONE, 1, 2, self._port_choice(rng, st)]), bid=bid,
-                     acts=self._acts(rng, st, allow_ctl=buffers))
+                     acts=self._acts(rng, st, allow_ctl=True))
+            if ctx.get("focus"):                                        # flows whose outputs later statistics requests filter on
+                m.update(cmd=rng.choice([0, 0, 0, 0, 1, 2, 3, 4]), flags=rng.choice([0, 0, 1, 2]), prio=rng.choice([1, 2, 3, 0x8000, rng.randint(0, 9)]),
+                         acts=[[0, rng.choice(self.FOCUS_PORTS)] for _ in range(rng.choice([0, 1, 1, 1, 2]))] + ([[3, 0]] if rng.random() < 0.2 else []),
+                         out_port=rng.choice([OFPP_NONE, OFPP_NONE] + self.FOCUS_PORTS))
+            ctx.setdefault("outs", []).extend(a[1] for a in m["acts"] if a[0] == 0)
         elif k == "stats_request":
             st_kind = rng.choice(["desc", "flow", "flow", "aggregate", "aggregate", "table", "port", "port", "queue", "queue", "other"])
             m["st"] = st_kind
             if st_kind in ("flow", "aggregate"):
+                seen = ctx.get("outs", [])
                 m.update(mkey=self._mk(rng, st), table_id=rng.choice([0, 0, 0xff, 0xff, 1, 0xfe, rng.randint(0, 255)]),
-                         out_port=rng.choice([OFPP_NONE, OFPP_NONE, OFPP_NONE, 1, 2, self._port_choice(rng, st)]))
+                         out_port=rng.choice([OFPP_NONE, OFPP_NONE, 1, 2, OFPP_CONTROLLER, OFPP_FLOOD, OFPP_ALL, self._port_choice(rng, st)] + seen[-6:]))
+                if ctx.get("focus"):
+                    m.update(mkey=rng.choice([None, None, None, 1, 2]), table_id=rng.choice([0, 0xff, 0, 0xff, 3]),
+                             out_port=rng.choice([OFPP_NONE] + self.FOCUS_PORTS + seen[-4:]))
             elif st_kind == "port": m["port"] = rng.choice([OFPP_NONE, OFPP_NONE, self._port_choice(rng, st)])
             elif st_kind == "queue": m.update(port=rng.choice([OFPP_ALL, OFPP_ALL, self._port_choice(rng, st)]), queue=rng.choice([OFPQ_ALL, OFPQ_ALL, 0, 1, ofgen.rint(rng, U32)]))
             elif st_kind == "other":
@@ -352,12 +412,26 @@ class C13(Check):
             m.update(ty=t, raw=raw.hex(), xid=struct.unpack_from("!L", raw, 4)[0])
         return m
 
-    def gen_case(self, rng, n, mode, buffers=True, unhandled=False):
+    def gen_case(self, rng, n, mode, buffers=True, unhandled=False, focus=False):
         st = copy.deepcopy(rng.choice(self.STATES + [self.STATES[0]] * 3))
         if rng.random() < 0.3:
             st["max_buffers"] = rng.choice([0, 1, 2, 100]); st["max_entries"] = rng.choice([0, 1, 2, 5, 0x7fffffff])
         ctx = {"handed": 0}
-        msgs = [self.gen_msg(rng, st, ctx, buffers=buffers and mode == "step", unhandled=unhandled) for _ in range(n)]
+        if focus:
+            # installs flows with physical and virtual output ports, then reads flow / aggregate / table statistics filtered on them
+            st = copy.deepcopy(self.STATES[0])
+            if rng.random() < 0.2: st["max_entries"] = rng.choice([2, 3, 5])
+            ctx["focus"] = True
+            kinds = ["flow_mod"] * 5 + ["stats_request"] * 6 + ["barrier_request", None]
+            msgs = []
+            for i in range(n):
+                k = "flow_mod" if i < min(3, n - 1) else rng.choice(kinds)
+                m = self.gen_msg(rng, st, ctx, kind=k, buffers=False)
+                if k == "stats_request" and m["st"] not in ("flow", "aggregate", "table"):
+                    m = self.gen_msg(rng, st, ctx, kind=k, buffers=False)
+                msgs.append(m)
+        else:
+            msgs = [self.gen_msg(rng, st, ctx, buffers=buffers and mode == "step", unhandled=unhandled) for _ in range(n)]
         case = {"state": st, "mode": mode, "msgs": msgs}
         if mode == "batch":
             used = set()
@@ -428,6 +502,14 @@ class C13(Check):
             [{"k": "port_mod", "xid": 1, "port": 1, "hw": hw1, "config": 1, "mask": 1}, {"k": "features_request", "xid": 2},
              {"k": "port_mod", "xid": 3, "port": 1, "hw": hw1, "config": 0x7c, "mask": 0x7d}, {"k": "features_request", "xid": 4}],
         ]
+        def sreq(x, kind, out, mk=None, tid=0):
+            return {"k": "stats_request", "xid": x, "st": kind, "mkey": mk, "table_id": tid, "out_port": out}
+        filt = [fm(1, 0, 1, 10, acts=[(0, 2)], ck=0xA1), fm(2, 0, 2, 20, acts=[(0, OFPP_CONTROLLER)], ck=0xA2), fm(3, 0, 3, 30, 1, acts=[(0, OFPP_FLOOD), (0, 1)], ck=0xA3)]
+        x = 100
+        for out in (OFPP_NONE, 2, 1, 3, OFPP_CONTROLLER, OFPP_FLOOD, OFPP_ALL, OFPP_IN_PORT, OFPP_MAX):
+            filt += [sreq(x, "flow", out), sreq(x + 1, "aggregate", out, tid=0xff), sreq(x + 2, "flow", out, mk=2), sreq(x + 3, "aggregate", out, tid=9)]; x += 4
+        filt += [fm(x, 3, None, 0, out=OFPP_FLOOD), tbl, fl, fm(x + 1, 4, 2, 20, out=OFPP_ALL), tbl, fm(x + 2, 4, 2, 20, out=OFPP_CONTROLLER), tbl, fl]
+        seqs.append(filt)
         for st in (S[0], S[1], S[2]):
             for sq in seqs:
                 sq2 = [copy.deepcopy(m) for m in sq]
@@ -453,7 +535,8 @@ class C13(Check):
         for i in range(n):
             L = rng.choice([2, 5, 10, 20, 40, 40, rng.randint(1, 40)])
             r = rng.random()
-            if r < 0.45: yield self.gen_case(rng, L, "step", buffers=False, unhandled=(rng.random() < 0.3))
+            if i % 5 == 0: yield self.gen_case(rng, max(L, 4), rng.choice(["step", "step", "batch"]), focus=True)
+            elif r < 0.45: yield self.gen_case(rng, L, "step", buffers=False, unhandled=(rng.random() < 0.3))
             elif r < 0.65: yield self.gen_case(rng, L, "step", buffers=True)
             else: yield self.gen_case(rng, L, "batch", unhandled=(rng.random() < 0.2))
 
@@ -540,7 +623,7 @@ class C13(Check):
 
     # ------------------------------------------------------------------ oracle (independent of the model)
 
-    def _check_request(self, m, R, raw, ctx, exc):
+    def _check_request(self, m, R, raw, ctx, exc, asyncs=None):
         """m: request spec; R: the non-asynchronous messages written for it; returns failure string or None.
         ctx: what the oracle itself tracks: config set so far, live buffer ids (None = not tracked), hello seen, ports."""
         k, x = m["k"], m["xid"]
@@ -617,12 +700,21 @@ class C13(Check):
                     return extra(r["body"]) if extra else None
                 return is_type("stats_reply", p)
             if st == "desc": return one(body_is("desc"), "desc reply")
-            if st == "table": return one(body_is("table", lambda b: None if b["v"][0] == ctx["state"]["max_entries"] else "max-entries-differs"), "table reply")
+            if st == "table":
+                return one(body_is("table", lambda b: "max-entries-differs" if b["v"][0] != ctx["state"]["max_entries"] else
+                                   ("active-count-differs | installed %d" % len(ctx["table"].flows) if b["v"][1] != len(ctx["table"].flows) else None)), "table reply")
             if st in ("flow", "aggregate"):
                 foreign = m["table_id"] not in (0, 0xff)
                 if foreign: tag += ":foreign-table"
-                if st == "flow": return one(body_is("flows", lambda b: "flows-for-foreign-table" if (foreign and b["l"]) else None), "flow reply")
-                return one(body_is("aggregate", lambda b: "nonzero-for-foreign-table" if (foreign and b["n"]) else None), "aggregate reply")
+                want = ctx["table"].stats_select(m["mkey"], m["table_id"], m["out_port"])
+                flt = "out_port-%s" % ("none" if m["out_port"] == OFPP_NONE else "physical" if m["out_port"] < OFPP_MAX else "virtual")
+                if st == "flow":
+                    key = lambda l: sorted((e[0], e[1], -1 if e[2] is None else e[2]) for e in l)
+                    exp = [[f["prio"], f["cookie"], f["mkey"]] for f in want]
+                    return one(body_is("flows", lambda b: "flows-for-foreign-table" if (foreign and b["l"]) else
+                                       (None if key(b["l"]) == key(exp) else "flow-list-differs:%s | expected (priority, cookie, in_port) %s" % (flt, exp))), "flow reply")
+                return one(body_is("aggregate", lambda b: "nonzero-for-foreign-table" if (foreign and b["n"]) else
+                                   (None if b["n"] == len(want) else "flow-count-differs:%s | expected %d" % (flt, len(want)))), "aggregate reply")
             if st == "port":
                 p = m["port"]
                 if p == OFPP_NONE: return one(body_is("ports", lambda b: None if sorted(b["l"]) == sorted(ctx["stat_ports"]) else "port-list-differs"), "port reply")
@@ -649,25 +741,23 @@ class C13(Check):
             for r in errs:
                 if r["xid"] != x: return "%s:reply-xid-%s | sent %d got %d" % (k, "zero" if r["xid"] == 0 else "differs", x, r["xid"])
             codes = [(r["etype"], r["code"]) for r in errs]
-            expect_fm = []
             if k == "flow_mod":
                 if m["cmd"] > 4:
                     tag = "flow_mod:unknown-command"
                     if codes != [(3, 4)]: return "%s:%s | expected FLOW_MOD_FAILED/BAD_COMMAND got %s" % (tag, "no-reply" if not codes else "wrong-error", codes)
                     return None
                 fmc = [c for c in codes if c[0] == 3]
-                if m["flags"] & 4 and m["cmd"] in (0, 1, 2):
-                    # emergency entries are not supported: an error of type FLOW_MOD_FAILED (bad timeout when the timeouts are set) unless an existing entry was modified
-                    if (m["idle"] or m["hard"]) and fmc and fmc != [(3, 3)]: return "flow_mod:emergency-timeout:wrong-error | %s" % codes
-                    if m["cmd"] == 0 and len(fmc) != 1: return "flow_mod:emergency:not-refused | %s" % codes
-                else:
-                    for c in fmc:
-                        if c == (3, 1) and not (m["flags"] & 2): return "flow_mod:overlap-error-without-check-flag | %s" % codes
-                        if c not in ((3, 0), (3, 1)): return "flow_mod:unexpected-error | %s" % codes
-                        if m["cmd"] in (3, 4): return "flow_mod:delete-refused | %s" % codes
-                    if (3, 0) in fmc and ctx["adds"] < ctx["state"]["max_entries"]: return "flow_mod:table-full-error-below-capacity | %s" % codes
-                if len(fmc) > 1: return "flow_mod:%d-errors | %s" % (len(fmc), codes)
-                if m["cmd"] in (0, 1, 2) and not fmc: ctx["adds"] += 1
+                cmdname = ("add", "modify", "modify_strict", "delete", "delete_strict")[m["cmd"]]
+                ok_codes, notify = ctx["table"].flow_mod(m)
+                name = lambda cs: "none" if not cs else "+".join("%d-%d" % c for c in sorted(cs))
+                if ok_codes is None:
+                    if fmc: return "flow_mod:%s:refused-%s | the standard accepts this flow_mod; installed now %d of %d" % (cmdname, name(fmc), len(ctx["table"].flows), ctx["table"].capacity)
+                elif len(fmc) != 1 or fmc[0] not in ok_codes:
+                    return "flow_mod:%s:expected-error-%s:got-%s | " % (cmdname, name(ok_codes), name(fmc))
+                if asyncs is not None:
+                    got = sorted((r["prio"], r["cookie"], r["reason"]) for r in asyncs if r["t"] == "flow_removed")
+                    exp = sorted((f["prio"], f["cookie"], 2) for f in notify)
+                    if got != exp: return "flow_mod:%s:flow-removed-notifications-differ | expected %s got %s" % (cmdname, exp, got)
                 codes = [c for c in codes if c[0] != 3]
             # action / buffer part
             unsupported = [a for a in m["acts"] if not (0 <= a[0] <= 11)]
@@ -676,10 +766,14 @@ class C13(Check):
             elif m["bid"] is None: executed = False
             elif ctx["live"] is not None:
                 executed = m["bid"] in ctx["live"]
-                if executed: ctx["live"].discard(m["bid"])
+                if executed:
+                    ctx["live"].discard(m["bid"]); ctx.setdefault("used", set()).add(m["bid"])
                 else:
-                    if codes not in ([(1, 8)], [(1, 7)]):
-                        return "%s:unknown-buffer:%s | buffer_id=%d, expected BAD_REQUEST/BUFFER_UNKNOWN, got %s" % (k, "silent" if not codes else "wrong-error", m["bid"], codes)
+                    # already used ↦ BUFFER_EMPTY (1/7), never handed out ↦ BUFFER_UNKNOWN (1/8)
+                    want = (1, 7) if m["bid"] in ctx.get("used", ()) else (1, 8)
+                    if codes != [want]:
+                        return "%s:unknown-buffer:%s | buffer_id=%d, expected BAD_REQUEST/%s, got %s" % (
+                            k, "silent" if not codes else "wrong-error", m["bid"], "BUFFER_EMPTY" if want[1] == 7 else "BUFFER_UNKNOWN", codes)
                     return None
             if executed is False and codes: return "%s:unexpected-error | %s" % (k, codes)
             if executed and unsupported and codes != [(2, 0)]:
@@ -691,7 +785,7 @@ class C13(Check):
     def oracle(self, case, obs):
         st = case["state"]
         live_ports = [p for p in st["ports"] if p not in st["deleted"]]
-        ctx = {"hello": False, "config": (0, st["miss"]), "ports": live_ports, "stat_ports": list(st["ports"]), "state": st, "adds": 0,
+        ctx = {"hello": False, "config": (0, st["miss"]), "ports": live_ports, "stat_ports": list(st["ports"]), "state": st, "table": SpecTable(st["max_entries"]),
                "hw": self._hw_cache(st), "live": set() if case["mode"] == "step" else None}
         raws = [self.to_bytes(m) for m in case["msgs"]]
         if not obs["alive"]: return "connection-closed"
@@ -701,7 +795,7 @@ class C13(Check):
             for m, g, raw in zip(case["msgs"], obs["groups"], raws):
                 if g["st"] != "ok": return "%s:connection-%s" % (m["k"], g["st"])
                 R = [r for r in g["out"] if r["t"] not in ASYNC]
-                f = self._check_request(m, R, raw, ctx, g["exc"])
+                f = self._check_request(m, R, raw, ctx, g["exc"], asyncs=[r for r in g["out"] if r["t"] in ASYNC])
                 for r in g["out"]:
                     if r["t"] == "packet_in" and r["bid"] is not None: ctx["live"].add(r["bid"])
                 if f: return f
